@@ -193,9 +193,9 @@ func enumCases(prop string) []*Case {
 	case "C14":
 		return enumC14()
 	case "C06":
-		return append(enumBatchFaults(prop), enumBadSubsets()...)
+		return append(append(enumBatchFaults(prop), enumBadSubsets()...), enumBorderRepeats(prop)...)
 	case "C13":
-		return append(enumBatchFaults(prop), enumShapes()...)
+		return append(append(enumBatchFaults(prop), enumShapes()...), enumBorderRepeats(prop)...)
 	case "C02":
 		return enumSignLengths()
 	}
